@@ -1174,14 +1174,24 @@ def run_oracle(ctx: Ctx, name: str, cases: list):
 
 # ---- adversarial timing on the real lexer -------------------------------------------------------
 def lex_time(text: str, limit: float) -> float:
-    """seconds the real MLIRLexer needs to tokenise `text` (best of 3; `limit` if it does not finish)"""
+    """seconds the real MLIRLexer needs to tokenise `text` (wall clock, best of 3 -- the CPU clock of this
+    machine is too coarse for millisecond runs; `limit` CPU seconds if it does not finish)"""
+    from xdsl.utils.exceptions import ParseError
+    from xdsl.utils.lexer import Input
+    from xdsl.utils.mlir_lexer import MLIRLexer, MLIRTokenKind
     best = None
     for _ in range(3):
-        t = clock()
-        r = lex_impl({"cps": [ord(c) for c in text]}, limit)
-        el = clock() - t
-        if r[1][0] == -9:
+        lx = MLIRLexer(Input(text, "<c07>"))
+        t = time.perf_counter()
+        try:
+            with time_limit(limit):
+                while lx.lex().kind is not MLIRTokenKind.EOF:
+                    pass
+        except _Timeout:
             return limit
+        except ParseError:
+            pass
+        el = time.perf_counter() - t
         best = el if best is None else min(best, el)
     return best
 
@@ -1233,15 +1243,15 @@ def pump(ctx: Ctx):
             if nm == "comment":
                 head, unit = "//", "a"
             ts = []
-            for k in (12, 13, 14, 15, 16):
+            for k in (12, 14, 16, 18):
                 text = head + unit * (2 ** k) + ("x" if nm == "whitespace-then-char" else "")
-                ts.append(lex_time(text, 10.0))
-            # linear = doubling the input about doubles the time; flagged only if the last two doublings both
-            # more than triple it on a measurable duration (robust against scheduling noise on a loaded machine)
-            ok = ts[-1] < 10.0 and not (ts[-1] > 0.05 and ts[-1] > 3 * ts[-2] and ts[-2] > 3 * ts[-3])
+                ts.append(lex_time(text, 20.0))
+            # linear = 4x the input costs about 4x the time; flagged only if the last two steps both cost more than
+            # 8x on durations long enough to measure (robust against clock granularity and scheduling noise)
+            ok = ts[-1] < 20.0 and not (ts[-1] > 0.1 and ts[-3] > 0.002 and ts[-1] > 8 * ts[-2] and ts[-2] > 8 * ts[-3])
             lin[nm] = {"seconds": [round(t, 5) for t in ts], "linear": ok}
             if not ok:
-                ctx.violation({"family": "pump-linear", "shape": nm, "case": {"text": f"{head!r} + {unit!r} * 2**16"},
+                ctx.violation({"family": "pump-linear", "shape": nm, "case": {"text": f"{head!r} + {unit!r} * 2**18"},
                                "oracle": "all regex obligations hold in the model but the real lexer is not linear on "
                                          "this family", "seconds": ts})
     ctx.coverage["adversarial_timing"] = {"failing_obligations": out, "accepted_regexes_linearity": lin}
